@@ -1,8 +1,10 @@
 package props
 
 import (
+	"fmt"
 	"strconv"
 	"testing"
+	"time"
 
 	"pgregory.net/rapid"
 
@@ -132,4 +134,94 @@ func c14Run(c MultiCase, st *kit.Stats) error {
 
 func TestC14(t *testing.T) {
 	kit.Check(t, kit.Prop[MultiCase]{ID: "C14", Gen: c14Gen, Run: c14Run})
+}
+
+// ---- part B: connections blocked or inside MULTI while another connection flushes ------------------------
+
+type C14BCase struct {
+	DB      int  `json:"db"`
+	All     bool `json:"all"`      // FLUSHALL instead of FLUSHDB
+	SameDB  bool `json:"same_db"`  // the flusher has the same database selected
+	InMulti bool `json:"in_multi"` // a third connection sits inside MULTI with queued writes during the flush
+	Blocked int  `json:"blocked"`  // 0 BLPOP 1 BRPOP 2 BLMOVE
+}
+
+func c14BGen(t *rapid.T) C14BCase {
+	return C14BCase{DB: pick(t, "db", 0, 1, 7, 15), All: rapid.Bool().Draw(t, "all"), SameDB: rapid.Bool().Draw(t, "same"), InMulti: rapid.Bool().Draw(t, "multi"), Blocked: rapid.IntRange(0, 2).Draw(t, "blk")}
+}
+
+func c14BRun(c C14BCase, st *kit.Stats) error {
+	emu := kit.StartEmu("")
+	defer emu.Stop()
+	db := strconv.Itoa(c.DB)
+	waiter, flusher, pusher, txc := emu.Dial(), emu.Dial(), emu.Dial(), emu.Dial()
+	for _, cn := range []*kit.Conn{waiter, pusher, txc} {
+		cn.Do("SELECT", db)
+	}
+	if c.SameDB {
+		flusher.Do("SELECT", db)
+	} else {
+		flusher.Do("SELECT", strconv.Itoa((c.DB+1)%16))
+	}
+	pusher.Do("SET", "old", "data")
+	var blk []string
+	switch c.Blocked {
+	case 0:
+		blk = []string{"BLPOP", "q", "0"}
+	case 1:
+		blk = []string{"BRPOP", "other", "q", "0"}
+	default:
+		blk = []string{"BLMOVE", "q", "dst", "LEFT", "RIGHT", "0"}
+	}
+	waiter.Write(kit.EncodeCmd(blk...))
+	if c.InMulti {
+		txc.Do("MULTI")
+		txc.Do("SET", "fromtx", "1")
+		txc.Do("RPUSH", "txlist", "a")
+	}
+	time.Sleep(3 * time.Millisecond) // let the blocking command register
+	fl := "FLUSHDB"
+	if c.All {
+		fl = "FLUSHALL"
+	}
+	if v, err := flusher.Do(fl); err != nil || v.IsErr() {
+		return fmt.Errorf("%s: %v %v", fl, v, err)
+	}
+	flushedWaitersDb := c.All || c.SameDB
+	// the flush is what every connection sees
+	v, _ := pusher.Do("EXISTS", "old")
+	if flushedWaitersDb && !kit.Equal(v, kit.Int(0)) {
+		return fmt.Errorf("after %s by another connection, a connection that had database %s selected before still sees the old key", fl, db)
+	}
+	if !flushedWaitersDb && !kit.Equal(v, kit.Int(1)) {
+		return fmt.Errorf("%s on database %d emptied database %s", fl, (c.DB+1)%16, db)
+	}
+	// the blocked client is still served through the (flushed) database
+	if v, err := pusher.Do("RPUSH", "q", "after-flush"); err != nil || v.IsErr() {
+		return fmt.Errorf("RPUSH after flush: %v %v", v, err)
+	}
+	r, err := waiter.Read(5 * time.Second)
+	if err != nil {
+		return fmt.Errorf("a client blocked in %v before the %s was not served by a push after it: %v", blk, fl, err)
+	}
+	if r.IsErr() || r.K == kit.KNil {
+		return fmt.Errorf("blocked client replied %s", r)
+	}
+	if c.InMulti {
+		v, err := txc.Do("EXEC")
+		if err != nil || v.K != kit.KArr || len(v.A) != 2 {
+			return fmt.Errorf("EXEC of a transaction that was open during the %s replied %v %v", fl, v, err)
+		}
+		g, _ := pusher.Do("GET", "fromtx")
+		if !kit.Equal(g, kit.Bulk("1")) {
+			return fmt.Errorf("writes of a transaction executed after the %s are not visible to other connections (GET fromtx -> %s)", fl, g)
+		}
+	}
+	st.Class(fl)
+	st.NonTrivial(fmt.Sprintf("%+v", c), c)
+	return nil
+}
+
+func TestC14B(t *testing.T) {
+	kit.Check(t, kit.Prop[C14BCase]{ID: "C14B", Gen: c14BGen, Run: c14BRun})
 }
